@@ -29,6 +29,7 @@ func runC10(r *engine.Run) {
 	r.Rule("AGREE-childset", "the branch hash covers every child slot, so routingNode.Serialize writes a child whenever it is present: the write into the persisted child list is conditional only on the child's nil test and on type assertions that select the layout, never on another property of the child")
 	r.Rule("FRESH-copy", "for every node type of the weighted trie whose fields are written after construction (insert updates value nodes in place; Serialize/CalcHash/commit write hash and dirty), no return of Copy or CopyRoot is the receiver itself and no child slot of the copy is filled with the receiver's own child object: a CopyRoot snapshot shares no mutable node with the trie it was taken from (proofs produced from a snapshot keep verifying against the snapshot's root while the original changes)")
 	r.Rule("FRESH-keybuf", "see C09: a node's key is never appended onto (the block-ownership walk hands the prefix down and appends to it)")
+	r.Rule("DOM-reject", "in the weighted trie a return of ErrWeightNotInRange that is reached through a single comparison of the block with a weight is reached only where block > weight holds (blocks are numbered from 1, a subtree of weight w owns 1..w): block >= weight turns away the last block of a subtree")
 	r.Rule("REF-fieldbuf", "no method of the weighted trie returns the byte view (Bytes()) of a bytes.Buffer kept in a field of its receiver: the next call rewrites the buffer, so a proof handed out earlier would change under its holder and stop verifying")
 	r.Rule("FRESH-resolved", "see C09: resolveHashNode hands out a node decoded from storage for this call and keeps it nowhere else (no per-trie cache of decoded nodes): the walks mutate what they get, and a node served from a cache after a rollback or collection pass yields proofs for a state the storage no longer holds")
 	r.NotDec = append(r.NotDec, "absence of other forgeries (a statement over all byte strings)", "that honest proofs verify for every content (value-level)")
@@ -51,6 +52,7 @@ func runC10(r *engine.Run) {
 	freshKeyBuf(r, "FRESH-keybuf")
 	freshResolved(r, "FRESH-resolved")
 	refFieldBuf(r, "REF-fieldbuf", funcsOfPkg(r, pkgWMPT))
+	domReject(r, "DOM-reject")
 }
 
 func orderRecompute(r *engine.Run, f *ssa.Function) {
